@@ -419,6 +419,10 @@ bool decode_little_endian_program(FILE *f, const char *filename,
 	      perror(filename);
 	      return false;
 	    }
+	  else
+	    {
+	      return premature_eof(f);
+	    }
 	}
       if ((len > 0) && buf[len-1] != 0x0D)
 	{
